@@ -206,6 +206,11 @@ func judge(m *clientModel, c *cpty, hdr *xtm.Header, tr truth, now time.Time) ve
 	for _, a := range tr.anomalies {
 		soft(a)
 	}
+	if len(ph.AppHash) == 0 {
+		// the statement does not say whether a header without app hash is acceptable (since fix fe1bea8 the
+		// client refuses it because the resulting consensus state could never be exported or used for proofs)
+		soft("empty-app-hash")
+	}
 	switch {
 	case len(out.reasons) > 0:
 		out.v = mustReject
